@@ -220,6 +220,16 @@ class Dim:
                         if mutating or self.sort(inner) in (BITS, UNITS):
                             self.flag(sub, "addresses the data buffer from its END by an item width; items live at i*w from the START and "
                                            "any trailing bits sit at the end, so this touches the trailing bits instead of the item")
+        # a dtype token is name + length in UNITS: a bit count next to a dtype name in a string is the wrong quantity
+        for x in own_walk(f.node):
+            if isinstance(x, ast.JoinedStr):
+                vals = [v for v in x.values if isinstance(v, ast.FormattedValue)]
+                for a, b in zip(vals, vals[1:]):
+                    if isinstance(a.value, ast.Attribute) and a.value.attr in ('name', '_name') and self.sort(b.value) == BITS \
+                            and x.values.index(b) == x.values.index(a) + 1:
+                        self.flag(b.value, "builds a dtype token as <name><bits>; the number in a token counts the dtype's units (bytes for 'bytes'), not bits")
+            if isinstance(x, ast.Call) and ast.unparse(x.func) == 'Dtype' and len(x.args) >= 2 and self.sort(x.args[1]) == BITS:
+                self.flag(x.args[1], "passes a bit count as the length of a Dtype; Dtype lengths count units of bits_per_item")
         # force evaluation of every arithmetic expression (reports mixed operations wherever they occur)
         for x in own_walk(f.node):
             if isinstance(x, ast.BinOp):
